@@ -34,21 +34,14 @@ def suite(cwd):
 def main():
     pid, mn = sys.argv[1], sys.argv[2]
     confirm = "--no-confirm" not in sys.argv
-    src = "/tmp/seed/%s-out/%s" % (pid, mn)
-    if not os.path.isdir(src):
-        src = "/tmp/seed2/%s-out/%s" % (pid, mn)
-    if not os.path.isdir(src):
-        src = "/tmp/seed3/%s-out/%s" % (pid, mn)
-    if not os.path.isdir(src):
-        src = "/tmp/seed4/%s-out/%s" % (pid, mn)
-    if not os.path.isdir(src):
-        src = "/tmp/seed5/%s-out/%s" % (pid, mn)
-    if not os.path.isdir(src):
-        src = "/tmp/seed6/%s-out/%s" % (pid, mn)
-    if not os.path.isdir(src):
-        src = "/tmp/seed7/%s-out/%s" % (pid, mn)
-    if not os.path.isdir(src):
-        src = os.path.join(ROOT, "seeded", "%s-%s" % (pid, mn))
+    # a change that is already kept under seeded/ is taken from there (its patch may have been rebased onto later fix: commits);
+    # a new one from the directory its author wrote it to
+    src = os.path.join(ROOT, "seeded", "%s-%s" % (pid, mn))
+    if not os.path.isfile(os.path.join(src, "patch.diff")):
+        for k in ("", "2", "3", "4", "5", "6", "7"):
+            src = "/tmp/seed%s/%s-out/%s" % (k, pid, mn)
+            if os.path.isdir(src):
+                break
     patch = os.path.join(src, "patch.diff")
     meta = {"property": pid, "change": mn, "source": "independent sub-agent given only the property text and a scratch worktree"}
     demos = [f for f in glob.glob(os.path.join(src, "demo*")) ]
